@@ -668,6 +668,17 @@ pub fn apply_schema(
         }
     }
 
+    // `ALTER TABLE ADD COLUMN` appends: keep the in-memory column order of
+    // existing tables in line with the database (and with what a restart loads)
+    for (name, table) in schema.tables.iter() {
+        if let Some(new_table) = new_schema.tables.get_mut(name) {
+            new_table.columns.sort_by(|a, _, b, _| {
+                let pos = |col: &String| table.columns.get_index_of(col).unwrap_or(usize::MAX);
+                pos(a).cmp(&pos(b))
+            });
+        }
+    }
+
     Ok(())
 }
 
